@@ -22,10 +22,12 @@ def run_reproducers(ctx, prop):
     hits = {}
     for f in open_findings(prop):
         spec = json.load(open(os.path.join(VERIF, f["reproducer"])))
-        if spec.get("kind", "behaviour") != "behaviour":
+        kind = spec.get("kind", "behaviour")
+        if kind not in ("behaviour", "gates"):
             continue
         flags = list(spec.get("server_flags", [])) + ["-noguards"]
-        traces = execute(ctx, spec["behaviours"], "kf-" + f["id"], server_flags=flags, shards=1)
+        traces = execute(ctx, spec["behaviours"], "kf-" + f["id"], server_flags=flags, shards=1,
+                         subcmd="gates" if kind == "gates" else "run")
         viols = validate(ctx, traces)
         tags = {v["tag"] for v in viols}
         if tags & set(spec["expect_tags"]):
